@@ -205,12 +205,18 @@ def shards(tier):
         out.append({"kind": "pairs", "part": i, "of": 12, "stride": 16 if quick else 1, "core": False})
     out.append({"kind": "determinism", "n": 300 if quick else 5000})
     out.append({"kind": "quirks"})
+    if not quick:
+        for i in range(6):
+            out.append({"kind": "fuzz", "seconds": 300})
     return out
 
 
 def run_shard(desc, seed, tier):
     acc = Acc()
     kind = desc["kind"]
+    if kind == "fuzz":
+        from vf.core import fuzz_shard
+        return fuzz_shard("c01", desc["seconds"], seed)
     if kind == "soup":
         strat = st.tuples(soup.soup_text(profile=desc["profile"], max_items=40 if tier == "quick" else 120),
                           st.one_of(st.none(), st.none(), st.none(), st.sampled_from(soup.CONTEXTS)), st.booleans())
